@@ -65,6 +65,7 @@ func main() {
 	closedUses := []string{}
 	recvWrites := []string{}
 	boltOpenArgs := []string{}
+	indexSites := []string{} // every index / slice expression (maps included: the syntax does not tell them apart)
 	// decision logic, per property: the full (comment-free, whitespace-normalised) text of the small functions
 	// that decide plans, windows, counts and ranges
 	logicFns := map[string]string{}
@@ -296,6 +297,10 @@ func main() {
 								if !okAssert[x] && x.Type != nil {
 									sites = append(sites, site{rel, f.recv + "." + f.name, "assert", exprStr(x)})
 								}
+							case *ast.IndexExpr:
+								indexSites = append(indexSites, rel+" "+strings.TrimPrefix(f.recv+"."+f.name, ".")+": "+exprStr(x))
+							case *ast.SliceExpr:
+								indexSites = append(indexSites, rel+" "+strings.TrimPrefix(f.recv+"."+f.name, ".")+": "+exprStr(x))
 							case *ast.DeferStmt:
 								if sel, ok := x.Call.Fun.(*ast.SelectorExpr); ok && sel.Sel.Name == "Rollback" {
 									f.deferRollback++
@@ -426,6 +431,8 @@ func main() {
 	strList("packageVars", "package-level variables outside tests", pkgVars)
 	sort.Strings(recvWrites)
 	strList("receiverWrites", "assignments through a method receiver (all packages)", recvWrites)
+	sort.Strings(indexSites)
+	strList("indexSites", "every index and slice expression outside tests (on maps as well as on slices, arrays and strings)", indexSites)
 	sort.Strings(layout)
 	strList("keyLayout", "the functions that define the key layout, the type ranks and the key encoding dispatch, statement by statement", layout)
 	for _, prop := range []string{"C01", "C02", "C03", "C04", "C05", "C06", "C07", "C08", "C09", "C10", "C11", "C12", "C13", "C14", "C15", "C16", "C17", "C18", "C19"} {
